@@ -613,6 +613,8 @@ def lean_ty(t):
         return "Section"
     if t == "rr":
         return "Bytes"
+    if t.startswith("struct:"):
+        return "_"
     if t == "Option<cachedq>":
         return "(Option (Bytes × Nat × Nat))"
     if t in ("&[u8]", "&mut[u8]", "Vec<u8>", "&Vec<u8>", "&mutVec<u8>", "bytes"):
@@ -857,6 +859,10 @@ class Translator:
         if f is not None:
             v = env["self." + f]
             return [], v.lean, v.ty
+        if k == "field" and e[1][0] == "var" and e[1][1] in env and env[e[1][1]].ty.startswith("struct:"):
+            info = XSTRUCT[env[e[1][1]].ty[7:]]
+            i = info["fields"].index(e[2])
+            return [], proj(env[e[1][1]].lean, i, len(info["fields"])), info["types"][i]
         if k == "field" and e[2] == "packet" and e[1][0] == "var" and e[1][1] in env and env[e[1][1]].ty == "rr":
             return [], env[e[1][1]].lean, "bytes"
         if k == "cast":
@@ -1029,6 +1035,15 @@ class Translator:
                 n = cx.gensym("w")
                 w = "16" if segs[1] == "read_u16" else "32"
                 return pb + pi + [("bind", n, "be%s %s %s" % (w, b, ti))], n, "u" + w
+            if segs[0] in XSTRUCT and segs[1] in XSTRUCT[segs[0]].get("ctors", {}):
+                lean = XSTRUCT[segs[0]]["ctors"][segs[1]]
+                pre, ts = [], []
+                for a in args:
+                    p, t, _ = self.expr(a, env, cx)
+                    pre += p
+                    ts.append(t)
+                n = cx.gensym("st")
+                return pre + [("bind", n, "%s %s" % (lean, " ".join(ts)))], n, "struct:" + segs[0]
             if segs in (["Vec", "with_capacity"], ["Vec", "new"]):
                 return [], "([] : Bytes)", "bytes"
             if len(segs) == 2 and segs[1] == "from" and segs[0] in INTS:
@@ -1113,6 +1128,20 @@ class Translator:
             if name in EXTERNAL:
                 return self.call_external(name, args, env, cx)
             raise Unsupported("method self.%s" % name)
+        if recv[0] == "var" and recv[1] in env and env[recv[1]].ty.startswith("struct:"):
+            sname = env[recv[1]].ty[7:]
+            info = XSTRUCT[sname]
+            fields = info["fields"]
+            if name in info.get("methods", {}):
+                lean, rty = info["methods"][name]
+                comps = [proj(env[recv[1]].lean, i, len(fields)) for i in range(len(fields))]
+                n = cx.gensym("st")
+                return [("bind", n, "%s %s" % (lean, " ".join(comps)))], n, rty
+            if name in info.get("unwrap", {}):
+                i = fields.index(info["unwrap"][name])
+                n = cx.gensym("u")
+                return [("bind", n, "unwrapOpt %s" % proj(env[recv[1]].lean, i, len(fields)))], n, "bytes"
+            raise Unsupported("method .%s of a %s" % (name, sname))
         if name == "all" and len(args) == 1 and args[0][0] == "closure" and len(args[0][1]) == 1 and args[0][1][0][0] == "pid":
             rng = recv
             while rng[0] == "paren":
@@ -1801,6 +1830,13 @@ EXTERNAL = {}
 XGROUP = {}
 # methods of `self` that are not translated but modelled by hand: name -> {lean, reads, writes}
 EXT_METHODS = {}
+# struct values produced by functions of another translated group: field lists in the order of the struct literal there
+XSTRUCT = {}
+
+
+def proj(term, i, n):
+    """the i-th component of a right-nested n-tuple"""
+    return "%s%s%s" % (term, ".2" * i, "" if i == n - 1 else ".1")
 
 
 def indent(text):
@@ -1869,17 +1905,25 @@ GROUPS = {
                      "ext_rcode": ("ext_rcode", "Option<u8>"), "edns_version": ("edns_version", "Option<u8>"),
                      "ext_flags": ("ext_flags", "Option<u16>"), "maybe_compressed": ("maybe_compressed", "bool"),
                      "max_payload": ("max_payload", "usize"), "cached": ("cached", "Option<cachedq>")},
-        imports=["DnsModel.TrRecompute"],
+        imports=["DnsModel.Mutate", "DnsModel.Generated.TrSector"],
         externals={"uncompress": ("uncompress", "bytes")},
-        ext_methods={"recompute": dict(lean="recomputeFields",
-                                       reads=["packet", "offset_question", "offset_answers", "offset_nameservers", "offset_additional",
-                                              "offset_edns", "edns_count", "ext_rcode", "edns_version", "ext_flags", "maybe_compressed", "max_payload", "cached"],
-                                       writes=["packet", "offset_question", "offset_answers", "offset_nameservers", "offset_additional",
-                                               "offset_edns", "maybe_compressed", "cached"])},
+        xstruct={"DNSSector": dict(ctors={"new": "Tr.Sector.new"},
+                                   fields=["packet", "offset", "edns_start", "edns_end", "edns_count", "ext_rcode", "edns_version",
+                                           "ext_flags", "max_payload"],
+                                   types=["bytes", "usize", "Option<usize>", "Option<usize>", "u16", "Option<u8>", "Option<u8>",
+                                          "Option<u16>", "usize"],
+                                   methods={"parse": ("Tr.Sector.parse", "struct:ParsedPacket")}),
+                 "ParsedPacket": dict(fields=["packet", "offset_question", "offset_answers", "offset_nameservers", "offset_additional",
+                                              "offset_edns", "ext_rcode", "edns_version", "ext_flags", "edns_count", "maybe_compressed",
+                                              "max_payload", "cached"],
+                                      types=["Option<bytes>", "Option<usize>", "Option<usize>", "Option<usize>", "Option<usize>",
+                                             "Option<usize>", "Option<u8>", "Option<u8>", "Option<u16>", "u16", "bool", "usize",
+                                             "Option<cachedq>"],
+                                      unwrap={"into_packet": "packet"})},
         fns=[dict(file="src/dns_sector.rs", impl="DNSSector", fn=f) for f in
              ["qdcount", "ancount", "nscount", "arcount", "set_qdcount", "set_ancount", "set_nscount", "set_arcount"]] +
             [dict(file="src/parsed_packet.rs", impl="ParsedPacket", fn=f) for f in
-             ["rrcount_inc", "rrcount_dec", "insertion_offset", "insert_rr"]],
+             ["rrcount_inc", "rrcount_dec", "insertion_offset", "recompute", "insert_rr"]],
     ),
     "Rename": dict(
         self_fields={},
@@ -1937,6 +1981,8 @@ def translate_group(gname):
     EXTERNAL.update(g.get("externals", {}))
     EXT_METHODS.clear()
     EXT_METHODS.update(g.get("ext_methods", {}))
+    XSTRUCT.clear()
+    XSTRUCT.update(g.get("xstruct", {}))
     for cfg in g["fns"]:
         tr.add(cfg)
     tr.analyse()
